@@ -171,4 +171,5 @@ pub fn run(ctx: &mut Ctx) {
             }
         }
     }
+    crate::spaces::render_probes(ctx, &["!", "!!"]);
 }
